@@ -42,6 +42,14 @@ STAR = {
                      LeafOpts='{"none","edict"}', SideOpts='{"none","mixobj","mixdict","mixlist"}', Alpha='"small"',
                      Alpha3='"none"', Profiles='{"star"}', Reuse='FALSE'),
 }
+# '**' destinations, and a wildcard after a segment that is absent (missing=: containers up to the wildcard)
+DEEP = {
+    'quick': dict(Mutant='"none"', MaxSpine='2', LevelClasses='{"dict","list"}', LeafOpts='{"none","edict"}',
+                  SideOpts='{"shared"}', Alpha='"tiny"', Alpha3='"none"', Profiles='{"starmiss","dstar"}', Reuse='FALSE'),
+    'thorough': dict(Mutant='"none"', MaxSpine='2', LevelClasses='{"dict","list","obj"}', LeafOpts='{"none","edict"}',
+                     SideOpts='{"shared","twin"}', Alpha='"small"', Alpha3='"none"', Profiles='{"starmiss","dstar"}',
+                     Reuse='FALSE'),
+}
 # ONE Assign spec object evaluated on two targets in sequence and through a list spec: every ordered
 # pair of targets, so the prefix stops existing at segment i on the first and at segment j on the second
 REUSE = {
@@ -101,9 +109,10 @@ ASSUMPTIONS = [
     'on plain builtins the default registrations of glom itself are exercised',
     'short-lived classes: every 12th case is also run on target classes made with type() right after classes of '
     'other kinds were created, used through string segments, deleted and garbage-collected',
-    'wildcards: only * (not **), only among the parent segments and without missing=; a failing match ends the '
-    'broadcast with the earlier matches assigned (no atomicity is claimed for wildcard paths); sets are never '
-    'enumerated by a wildcard (iteration order)',
+    'wildcards * and ** among the parent segments; a failing match ends the broadcast with the earlier matches '
+    'assigned (no atomicity is claimed for wildcard paths); with missing=, segments absent before the first wildcard '
+    'are created and the wildcard ranges over the last new container; sets are only enumerated when their order '
+    'is determined (small ints)',
     'TLC, the Json community module and the codec are trusted',
 ]
 
@@ -130,7 +139,8 @@ RULE = ('TLC enumerates every (target spine, destination path, value, missing fa
 def main(tier, seed):
     universes = [(tier, TIERS[tier]), (tier + '-star', STAR[tier], tier == 'thorough'),
                  (tier + '-reuse', REUSE[tier], tier == 'thorough'),
-                 (tier + '-litval', LITVAL[tier], tier == 'thorough')]
+                 (tier + '-litval', LITVAL[tier], tier == 'thorough'),
+                 (tier + '-deep', DEEP[tier], tier == 'thorough')]
     if tier == 'thorough':
         universes.append(('thorough-wide', THOROUGH_WIDE))
     return DRIVER.main(tier, seed, universes, NRANDOM[tier], ASSUMPTIONS, RULE)
